@@ -141,7 +141,7 @@ def make_slice(rng, kind, E, T, t, boundary, Sk=1, rich=False):
 def gen(rng, tier, props=("C04",)):
     progs, cases = [], []
     hist = collections.Counter()
-    nprog = 260 if tier == "quick" else 2500
+    nprog = scaled(260 if tier == "quick" else 2500)
     maxR = 3 if tier == "quick" else 4
     maxlev = 2 if tier == "quick" else 3
     tries = 0
@@ -155,7 +155,7 @@ def gen(rng, tier, props=("C04",)):
                     pair_queue.append((lay_, [k1, rng.choice(KINDS), k2] if rng.random() < 0.5 else [rng.choice(KINDS), k1, k2]))
     rng.shuffle(pair_queue)
     if tier == "quick":
-        nprog = max(nprog, len(pair_queue) + 120)
+        nprog = max(nprog, len(pair_queue) + 120) if not is_scaled() else nprog
     while len(progs) < nprog and tries < nprog * 40:
         tries += 1
         forced = pair_queue.pop() if pair_queue else None
@@ -333,6 +333,11 @@ def judge(prop, r, cfg):
             if not model_ub and (f.get("of") != fm.get("of") or f.get("sp") != fm.get("sp")) and not out:
                 out.append(("of", "level %d: offset/span %s/%s, model %s/%s" % (l, f.get("of"), f.get("sp"), fm.get("of"), fm.get("sp")), False))
             prev_sp = sp
+        elif prop == "C15":
+            for k in sorted(fm):
+                if fm.get(k) not in (None, "UB") and f.get(k) != fm.get(k):
+                    out.append((k, "in configuration %s level %d: %s is %s, every configuration must give %s" % (cfg, l, k, str(f.get(k))[:120], str(fm.get(k))[:120]), True))
+                    break
         elif prop == "C09":
             if not model_ub or True:
                 for k in ("rk", "ly", "se"):
@@ -351,6 +356,7 @@ def collect(rep, prop, tier, seed, exe, replay=None):
         configs = ["gcc23", "clang17"] if tier == "quick" else ["gcc23", "clang17", "gcc20", "clang20", "clang2b", "gcc17"]
     else:
         configs = ["gcc23", "clang17"] if tier == "quick" else ["gcc23", "clang17", "gcc20", "clang20", "gcc17", "gcc23-san"]
+    configs = pick_configs(configs)
     if replay:
         rp = json.load(open(replay))
         pr = Prog(rp["call"], rp["program"]); pr.id = rp["case_tokens"][0]; pr.body = rp["body"]
